@@ -6,6 +6,15 @@ use crate::trait_group::c_void;
 use core::mem::MaybeUninit;
 use std::prelude::v1::*;
 
+// Verification hook: the Kani compiler overrides the assertion macros through `#[macro_use]`, which
+// is ambiguous with the glob import of the std prelude above. Only `cfg(kani)` builds see this.
+#[cfg(kani)]
+#[allow(unused_imports)]
+use core::{
+    assert, assert_eq, assert_ne, debug_assert, debug_assert_eq, debug_assert_ne, panic,
+    unreachable,
+};
+
 /// FFI compatible iterator.
 ///
 /// Any mutable reference to an iterator can be converted to a `CIterator`.
